@@ -27,6 +27,8 @@ def plan(tier: str, seed: int) -> List[Dict[str, Any]]:
         out.append({'kind': 'grammar', 'seed': seed, 'shard': i, 'rounds': 12 if quick else 300, 'timeout_s': 1500 if quick else 7200})
     for i in range(8 if quick else 32):
         out.append({'kind': 'mutate', 'seed': seed, 'shard': i, 'cases': 500 if quick else 12000, 'timeout_s': 1500 if quick else 7200})
+    for spec in out[2::5]:   # (python -O strips assert statements and sets __debug__ to False)
+        spec['env'] = {'PYTHONOPTIMIZE': '1'}
     out.append({'kind': 'stl', 'seed': seed, 'shard': 0, 'cases': 30 if quick else 400, 'timeout_s': 3000})
     out.append({'kind': 'blowup', 'seed': seed, 'shard': 0, 'timeout_s': 1500})
     return out
